@@ -235,7 +235,9 @@ class Tr:
         T = ["E0"] + [("E %d %d %s %s" % (u, evs[u]["blk"], z(evs[u]["idx"]), self.conv(evs[u]["conv"]))) if u in evs else "E0" for u in range(1, nmax + 1)]
         toks = {t["id"]: t for t in row["tokens"]}
         tmax = max(toks) if toks else 0
-        TA = ["McErr"] + [self.mcans(toks[i]["ans"]) if i in toks else "McErr" for i in range(1, tmax + 1)]
+        # what the token contracts answer may change during the history (steps "tokchange"): one table per version
+        TAs = [["McErr"] + [self.mcans(toks[i]["ans"]) if i in toks else "McErr" for i in range(1, tmax + 1)]]
+        ver = 0
         blocks = {}
         for s in row["steps"]:
             for b in s.get("blocks", []):
@@ -247,6 +249,11 @@ class Tr:
             op = s["op"]
             if s.get("res") == "stall":
                 self.skip = "stall"
+            if op == "tokchange":
+                toks = dict(toks)
+                toks[s["id"]] = s
+                TAs.append(["McErr"] + [self.mcans(toks[i]["ans"]) if i in toks else "McErr" for i in range(1, tmax + 1)])
+                ver += 1
             if op == "poll":
                 pages = []
                 for p in s["pages"]:
@@ -255,7 +262,7 @@ class Tr:
                     else:
                         pages.append("(%d, Page (map ev %s) %d)" % (p["s"], core.glist(str(u) for u in p["u"]), p["n"]))
                 cnt = "None" if s["cnt"] is None else "(Some %d)" % s["cnt"]
-                ops.append("OPoll %s (pgf %s %s) tok" % (cnt, core.glist(pages), "true" if s["res"] == "spin" else "false"))
+                ops.append("OPoll %s (pgf %s %s) tok%d" % (cnt, core.glist(pages), "true" if s["res"] == "spin" else "false", ver))
                 fl = {"idle": 0, "batch": 0, "fatal": 1, "spin": 2, "panic": 3}.get(s["res"], 9)
                 ok = s["res"] in ("idle", "batch")
                 # the model's page loop has fuel count-fromIndex+1 (PSpin = more page requests than that)
@@ -292,13 +299,14 @@ class Tr:
                 hd = "hd" if s["hderr"] < 0 else "(fun b => if b =? %d then None else hd b)" % s["hderr"]
                 mc = "None" if s["mc"] is None else ("(Some true)" if s["mc"] else "(Some false)")
                 ht = "None" if s["height"] is None else "(Some %d)" % s["height"]
-                ops.append("RO %d %d %s %s %s ta %s %s %s" % (s["chain"], s["txlen"], st, ev, hd, mc, ht, z(s["lo"] - self.base)))
+                ops.append("RO %d %d %s %s %s ta%d %s %s %s" % (s["chain"], s["txlen"], st, ev, hd, ver, mc, ht, z(s["lo"] - self.base)))
                 fl = {"ok": 0, "panic": 3}.get(s["res"], 9)
                 xs.append("(%d, %s, [], -1, -1, -1)" % (fl, "[-1]" if self.ignore_reobs_fwd else core.glist(str(u) for u in s["fwd"])))
-        text = ("(let T := %s in let ev := look E0 T in let ta := look McErr %s in let hd := look (@None header) %s in\n"
-                "  let L := map ev %s in let tok := fun i => tokof ta (look E0 L i) in\n"
+        tabs = " ".join("let ta%d := look McErr %s in let tok%d := fun i => tokof ta%d (look E0 L i) in" % (k, core.glist(ta), k, k) for k, ta in enumerate(TAs))
+        text = ("(let T := %s in let ev := look E0 T in let hd := look (@None header) %s in\n"
+                "  let L := map ev %s in %s\n"
                 "  ({| c_gov := 0; c_bridge := 1; c_mainnet := %s |}, %d, %s, %s))"
-                % (core.glist(T), core.glist(TA), core.glist(HD), core.glist(str(u) for u in row["log"]),
+                % (core.glist(T), core.glist(HD), core.glist(str(u) for u in row["log"]), tabs,
                    "true" if row["mainnet"] else "false", row["from0"], core.glist(ops), core.glist(xs)))
         return text
 
@@ -509,7 +517,10 @@ class PipeTr:
                 continue
             e = evs[u]
             T.append("XE %d %d %s %s %s" % (u, e["blk"], z(e["idx"]), gS(e["raw"]["txid"]), core.glist("FV %d %s" % (f[0], gS(f[1])) for f in e["raw"]["f"])))
-        TA = ["(%s, %s)" % (gB(t["idhex"]), self.ans(t)) for t in row["tokens"]]
+        cur = {t["id"]: t for t in row["tokens"]}
+        order = [t["id"] for t in row["tokens"]]
+        TAs = [["(%s, %s)" % (gB(cur[i]["idhex"]), self.ans(cur[i])) for i in order]]
+        ver = 0
         blocks = {}
         for s in row["steps"]:
             for b in s.get("blocks", []):
@@ -522,6 +533,11 @@ class PipeTr:
             op = s["op"]
             if s.get("res") == "stall":
                 self.skip = "stall"
+            if op == "tokchange":
+                cur = dict(cur)
+                cur[s["id"]] = s
+                TAs.append(["(%s, %s)" % (gB(cur[i]["idhex"]), self.ans(cur[i])) for i in order])
+                ver += 1
             if op == "poll":
                 pages = []
                 for p in s["pages"]:
@@ -530,7 +546,7 @@ class PipeTr:
                     else:
                         pages.append("(%d, XPage (map ev %s) %d)" % (p["s"], core.glist(str(u) for u in p["u"]), p["n"]))
                 cnt = "None" if s["cnt"] is None else "(Some %d)" % s["cnt"]
-                ops.append("XPoll %s (xpgf %s %s) tok" % (cnt, core.glist(pages), "true" if s["res"] == "spin" else "false"))
+                ops.append("XPoll %s (xpgf %s %s) tok%d" % (cnt, core.glist(pages), "true" if s["res"] == "spin" else "false", ver))
                 fl = {"idle": 0, "batch": 0, "fatal": 1, "spin": 2, "panic": 3}.get(s["res"], 9)
                 ok = s["res"] in ("idle", "batch")
                 if s["cnt"] is not None and s["nreq"] > max(s["cnt"] - s["from"], 0) + 1:
@@ -564,14 +580,15 @@ class PipeTr:
                 hd = "hd" if s["hderr"] < 0 else "(fun b => if b =? %d then None else hd b)" % s["hderr"]
                 mc = "None" if s["mc"] is None else ("(Some true)" if s["mc"] else "(Some false)")
                 ht = "None" if s["height"] is None else "(Some %d)" % s["height"]
-                ops.append("XRO %d %s %s %s %s ta %s %s %s" % (s["chain"], gB(s["txhash"]), st, ev, hd, mc, ht, z(s["lo"])))
+                ops.append("XRO %d %s %s %s %s ta%d %s %s %s" % (s["chain"], gB(s["txhash"]), st, ev, hd, ver, mc, ht, z(s["lo"])))
                 fl = {"ok": 0, "panic": 3}.get(s["res"], 9)
                 fw = "None" if self.mode == "uid" else "(Some %s)" % core.glist(self.digest(m) for m in s["msgs"])
                 xs.append("(%d, %s, %s, [], -1, -1, -1)" % (fl, fw, fb))
-        return ("(let T := %s in let ev := look XE0 T in let ta := tabf %s in let hd := look (@None W.header) %s in\n"
-                "  let L := map ev %s in let tok := fun i => xtokof ta (look XE0 L i) in\n"
+        tabs = " ".join("let ta%d := tabf %s in let tok%d := fun i => xtokof ta%d (look XE0 L i) in" % (k, core.glist(ta), k, k) for k, ta in enumerate(TAs))
+        return ("(let T := %s in let ev := look XE0 T in let hd := look (@None W.header) %s in\n"
+                "  let L := map ev %s in %s\n"
                 "  ({| xc_gov := 0; xc_bridge := %s; xc_mainnet := %s |}, %d, %s, %s))"
-                % (core.glist(T), core.glist(TA), core.glist(HD), core.glist(str(u) for u in row["log"]), gB(row["bridge"]),
+                % (core.glist(T), core.glist(HD), core.glist(str(u) for u in row["log"]), tabs, gB(row["bridge"]),
                    "true" if row["mainnet"] else "false", row["from0"], core.glist(ops), core.glist(xs)))
 
 
